@@ -38,4 +38,14 @@ CHECKS = {
   'note': TB,
   'technique': 'Coq proof (model = RFC 8259 spec on all inputs) + extracted-model and extracted-spec correspondence + differential search',
  },
+ 'C05': {
+  'text': ("Proof (Coq): for EVERY byte string, Unmarshal(b,&v) with v interface{} (buffer mode: decodeEmptyInterface, map/slice/float/string decoders, "
+           "literal validators, validateEndBuf) accepts exactly the RFC 8259 texts whose nesting is <= maxDecodeNestingDepth and whose numbers fit float64 "
+           "(the language encoding/json accepts into interface{}); nothing outside RFC 8259 is accepted whatever the range oracle; never a read outside "
+           "src++[NUL], never out of fuel. Tied by ~6*10^5 model-vs-implementation verdicts per run. Valid, Decoder.Decode (whole and 1-byte readers) and six "
+           "typed destinations that skip, ignore or delegate are compared with encoding/json on all strings <=4 over the 27-byte alphabet, generated texts "
+           "and their single-byte edits. Partial: the stream decoder and the typed decoders are not modelled; their recorded leniencies are open findings."),
+  'note': TB + " Oracle parameter: float_in_range (strconv.ParseFloat's range verdict) is a function parameter of the model, not an axiom.",
+  'technique': 'Coq proof (acceptor model = limited RFC 8259 grammar on all inputs) + correspondence + exhaustive small-scope differential search',
+ },
 }
